@@ -203,6 +203,7 @@ def explore(prop, tier, seed, budget, fixed_runs, nworkers, quiet=False):
     t0 = time.time()
     print('VERIF_SEED=%d property=%s tier=%s budget=%ss workers=%d '
           'hashseeds/run=%d' % (seed, prop, tier, budget, nworkers, H))
+    canaries = Canaries(prop, tier, seed)
     pool = Pool(HASHSEEDS, nworkers)
     t_ready = time.time()
     agg = ev.Aggregate(prop, tier, seed, mod)
@@ -295,17 +296,17 @@ def explore(prop, tier, seed, budget, fixed_runs, nworkers, quiet=False):
             'seeds_repeated': len({k[0] for k in det}),
             'executions_compared': sum(len(v) for v in det.values()),
             'mismatches': len(nondet)}
-        if nondet:
+        if nondet and not violations:
+            # (with violations at hand those are reported first: state leaking
+            # between runs inside the code under test shows up here as well)
             raise HarnessError('nondeterministic harness: run seeds %s gave '
                                'different event logs on repetition' % (
                                    sorted(nondet)[:5],))
-        if errors:
+        if errors and not violations:
             raise HarnessError('%d worker job errors, first: %s\n%s' % (
                 len(errors), errors[0]['error'], errors[0].get('tb', '')))
         # canaries (never influence the exit code)
-        if hasattr(mod, 'CANARIES') and os.environ.get('VERIF_CANARIES',
-                                                       '1') != '0':
-            agg.canaries = run_canaries(mod, tier, seed)
+        agg.canaries = canaries.join(60 if tier == 'quick' else 600)
         # violations: confirm, shrink, write replay files
         lines = []
         if violations:
@@ -343,7 +344,8 @@ def explore(prop, tier, seed, budget, fixed_runs, nworkers, quiet=False):
     agg.explore_wall = t_explore - t_ready
     agg.known = known
     agg.fixed = fixed
-    path = agg.write()
+    if os.environ.get('VERIF_NO_EVIDENCE') != '1':   # mutant trials
+        agg.write()
     print(agg.summary())
     for k in known:
         print('KNOWN-FINDING: property=%s %s (observed=%d in this run)' % (
@@ -365,18 +367,46 @@ JOB_WAIT = 400
 SHRINK_BUDGET = {'quick': 60, 'thorough': 180}
 
 
-def run_canaries(mod, tier, seed):
-    out = {}
-    for name in mod.CANARIES:
+CANARY_RUNS = {'quick': 150, 'thorough': 600}
+
+
+class Canaries:
+    """Runs every canary of a property in its own fresh interpreter, in
+    parallel with the exploration; never influences the exit code."""
+
+    def __init__(self, prop, tier, seed):
+        import threading
+        from dst.canary import PATCHES
+        self.out = {}
+        self.threads = []
+        if os.environ.get('VERIF_CANARIES', '1') == '0':
+            return
+        for name in sorted(PATCHES.get(prop, {})):
+            t = threading.Thread(target=self._one, args=(prop, name, tier,
+                                                         seed), daemon=True)
+            t.start()
+            self.threads.append(t)
+
+    def _one(self, prop, name, tier, seed):
         try:
-            r = one_shot(0, {'cmd': 'canary', 'prop': mod.ID, 'name': name,
-                             'seeds': [(seed << 24) + i for i in range(
-                                 mod.CANARY_RUNS.get(tier, 40))],
-                             'tier': tier})
-            out[name] = r.get('detected', r.get('error'))
-        except WorkerDied as ex:
-            out[name] = 'worker died: %s' % ex
-    return out
+            r = one_shot(0, {
+                'cmd': 'canary', 'prop': prop, 'name': name, 'tier': tier,
+                'seeds': [(seed << 24) + (1 << 20) + i
+                          for i in range(CANARY_RUNS.get(tier, 100))]},
+                extra_env={'DST_JOB_TIMEOUT': '900'})
+            if 'error' in r:
+                self.out[name] = {'detected': None, 'error': r['error']}
+            else:
+                self.out[name] = {k: r.get(k) for k in (
+                    'detected', 'after_runs', 'how')}
+        except Exception as ex:
+            self.out[name] = {'detected': None, 'error': repr(ex)[:200]}
+
+    def join(self, timeout):
+        end = time.time() + timeout
+        for t in self.threads:
+            t.join(max(0.0, end - time.time()))
+        return self.out
 
 
 def main(argv):
